@@ -90,6 +90,18 @@ pub fn run(rep: &mut Rep) {
         mt_stress(rep, &format!("miri-mt:{}", rep.shard), 2, 24, rep.seed.wrapping_mul(31).wrapping_add(rep.shard), false, "C11");
         return;
     }
+    if rep.profile == "tsan" {
+        // the race detector has something to observe only where several threads run
+        rep.note("tsan: only the real-thread stress runs under ThreadSanitizer (the single-task runs have no concurrency for it to observe)");
+        let mt: Vec<(usize, usize)> = vec![(4, 20_000), (8, 20_000), (6, 20_000), (2, 30_000), (8, 10_000), (3, 20_000)];
+        for (k, (threads, ops)) in mt.iter().enumerate() {
+            let id = format!("mt:{k}:{threads}:{ops}");
+            if rep.take(k as u64, &id) {
+                mt_stress(rep, &id, *threads, *ops, rep.seed.wrapping_mul(31).wrapping_add(k as u64), k % 2 == 1, "C11");
+            }
+        }
+        return;
+    }
     let mut idx = 0u64;
     // single task: (total operations, window of outstanding operations acknowledged FIFO)
     let mut runs: Vec<(usize, usize, Option<(u16, u32)>)> = vec![
